@@ -35,6 +35,8 @@ TSpec == TInit /\ [][TNext]_tvars
 \* what the implementation reports for object k after the operation
 Same(obs, p) == obs.a = p.a /\ obs.b = p.b /\ obs.c = p.c /\ obs.other = 0
 
+\* adding, subtracting, negating and scaling are total: they never raise
+Inv_Total == l >= 1 => Last.raised = ""
 Inv_Base  == l = 0 => (Len(Tr.base) = 4 /\ \A k \in 1..4 : Same(Tr.base[k], pool[k]))
 Inv_Pool  == l >= 1 => (Len(Last.pool) = Len(pool) /\ \A k \in DOMAIN pool : Same(Last.pool[k], pool[k]))
 =============================================================================
